@@ -663,7 +663,7 @@ func TestVerifC11(t *testing.T) {
 	if n == nil {
 		return
 	}
-	defer n.stop()
+	defer func() { n.stop() }()
 	// throttling stays on (a small cooloff): the per-session throttle state is part of the state digest
 	if code, b := c.postConfig(n.password, strings.Replace(noThrottleConfig, `PostMessageCooloff = "0"`, `PostMessageCooloff = "8ms"`, 1), "0"); code != 200 {
 		rep.Broken(fmt.Sprintf("config post: %d %s", code, b))
@@ -738,6 +738,23 @@ func TestVerifC11(t *testing.T) {
 	}
 	c.deleteSession(deletedFresh, []byte(`{"Quitmessage":"never registered"}`))
 	waitApplied(n)
+	if seed%3 == 1 {
+		// the matrix runs on a node that restarted from a snapshot into which the deletions were folded
+		*canaryCompactionStart = time.Now().Add(3 * time.Hour).UnixNano()
+		if err := n.raft.Snapshot().Error(); err != nil {
+			rep.Note("snapshot: " + err.Error())
+		}
+		*canaryCompactionStart = 0
+		n.stop()
+		var err error
+		n, err = startNode(n.dir, true)
+		if err != nil {
+			rep.Broken("restart: " + err.Error())
+			return
+		}
+		c = newClient(n.base)
+		rep.Obs("restarted-from-folded-snapshot-before-the-matrix", 1)
+	}
 	last, _ := n.logStore.LastIndex()
 	never := &vsession{Id: fmt.Sprintf("0x%x", last+1000), Auth: logged.Auth, N: last + 1000}
 	hex256 := func() string {
@@ -1060,7 +1077,7 @@ func TestVerifC17API(t *testing.T) {
 	if n == nil {
 		return
 	}
-	defer n.stop()
+	defer func() { n.stop() }()
 	if code, b := c.postConfig(n.password, noThrottleConfig, "0"); code != 200 {
 		rep.Broken(fmt.Sprintf("config post: %d %s", code, b))
 		return
@@ -1068,6 +1085,7 @@ func TestVerifC17API(t *testing.T) {
 	viol := func(key, what string) {
 		rep.Violation("C17", key, what, map[string]interface{}{"seed": verifrep.Seed()})
 	}
+	var ended []*vsession
 	rounds := verifrep.Cases(10)
 	cm := uint64(90)
 	for r := 0; r < rounds; r++ {
@@ -1108,6 +1126,32 @@ func TestVerifC17API(t *testing.T) {
 			viol("end:deleted-session-still-served", "GET /messages for a deleted session answered 200")
 		}
 		rep.Case(fmt.Sprintf("api-lookup|deleted|%d", code))
+		ended = append(ended, s)
+	}
+	// the deletions are folded into a snapshot and the node restarts from it: sessions that
+	// ended stay ended (a compaction that loses a deletion would bring them back, secret included)
+	*canaryCompactionStart = time.Now().Add(3 * time.Hour).UnixNano()
+	if err := n.raft.Snapshot().Error(); err != nil {
+		rep.Note("snapshot: " + err.Error())
+	}
+	*canaryCompactionStart = 0
+	n.stop()
+	var err error
+	n, err = startNode(n.dir, true)
+	if err != nil {
+		rep.Broken("restart: " + err.Error())
+		return
+	}
+	c = newClient(n.base)
+	for _, s := range ended {
+		ctx, cancel := context.WithTimeout(context.Background(), 300*time.Millisecond)
+		code, _ := doCtx(ctx, c, "GET", "/robustirc/v1/"+s.Id+"/messages?lastseen=0.0", map[string]string{"X-Session-Auth": s.Auth}, "")
+		cancel()
+		if code == 200 {
+			viol("end:deleted-session-back-after-restart", fmt.Sprintf("GET /messages for session %s, deleted before the snapshot the node restarted from, answered 200", s.Id))
+			break
+		}
+		rep.Case(fmt.Sprintf("api-lookup|deleted-then-restart|%d", code))
 	}
 	rep.Sample(map[string]interface{}{"rounds": rounds})
 }
